@@ -4,6 +4,8 @@ package main
 
 import (
 	"bytes"
+	"crypto/aes"
+	"crypto/cipher"
 	"encoding/base64"
 	"fmt"
 	"strings"
@@ -48,14 +50,71 @@ func propC07(r *Run) {
 		nf := 1 + r.Choose("nfactories", 2)
 		var facs []*webSessionFactory
 		var lts []time.Duration
-		for i := 0; i < nf; i++ {
-			lt := lifetimes[r.Choose("lifetime", len(lifetimes))]
-			f, err := NewWebSessionFactory(lt)
-			if err != nil {
-				r.Fail("harness/factory", "%v", err)
+		if r.Choose("listeners-start-together", 3) == 0 {
+			// every web listener builds its factory in its own goroutine at start-up: the
+			// constructions overlap, interleaved statement by statement
+			nf = 2 + r.Choose("nfactories-together", 2)
+			sched := simrt.NewSched()
+			simrt.S = sched
+			facs = make([]*webSessionFactory, nf)
+			errs := make([]error, nf)
+			for i := 0; i < nf; i++ {
+				lts = append(lts, lifetimes[r.Choose("lifetime", len(lifetimes))])
+				name := fmt.Sprintf("listener%d", i)
+				go func() {
+					sched.Register(name)
+					simrt.Yield("start")
+					facs[i], errs[i] = NewWebSessionFactory(lts[i])
+				}()
 			}
-			facs = append(facs, f)
-			lts = append(lts, lt)
+			for guard := 0; guard < 4000; guard++ {
+				synctest.Wait()
+				rs := sched.Runnable()
+				if len(rs) == 0 {
+					break
+				}
+				sched.Release(rs[r.Choose("start-who", len(rs))], nil)
+			}
+			simrt.S = nil
+			for i := range facs {
+				if facs[i] == nil || errs[i] != nil {
+					r.Fail("harness/factory", "factory %d of %d built together: %v", i, nf, errs[i])
+				}
+			}
+			// instance-bound from the first moment, and no key anybody could guess
+			now := time.Now().Unix()
+			zero, _ := aes.NewCipher(make([]byte, 16))
+			zgcm, _ := cipher.NewGCM(zero)
+			zn := make([]byte, zgcm.NonceSize())
+			forged := base64.URLEncoding.EncodeToString(zn) + ":" + base64.URLEncoding.EncodeToString(zgcm.Seal(nil, zn, []byte(fmt.Sprintf("alice:true:%d", now)), nil))
+			for i := range facs {
+				if st, _, u, _ := facs[i].Check(forged); st == 200 {
+					r.Fail("token/forged-accepted", "factory %d of %d built together accepts a token sealed with an all-zero key (as %s)", i, nf, simrt.Q(u))
+				}
+				st, _, text := facs[i].Generate("alice", true)
+				if st != 200 {
+					r.Fail("token/generate-failed", "factory %d of %d built together cannot issue: status %d", i, nf, st)
+				}
+				if st2, _, _, _ := facs[i].Check(text); st2 != 200 {
+					r.Fail("token/valid-rejected", "factory %d of %d built together rejects its own fresh token with %d", i, nf, st2)
+				}
+				for j := range facs {
+					if st3, _, u, _ := facs[j].Check(text); j != i && st3 == 200 {
+						r.Fail("token/other-instance-accepted", "a token of factory %d opens on factory %d (as %s); both were built at the same time", i, j, simrt.Q(u))
+					}
+				}
+			}
+			r.Count("probe:factories-built-together")
+		} else {
+			for i := 0; i < nf; i++ {
+				lt := lifetimes[r.Choose("lifetime", len(lifetimes))]
+				f, err := NewWebSessionFactory(lt)
+				if err != nil {
+					r.Fail("harness/factory", "%v", err)
+				}
+				facs = append(facs, f)
+				lts = append(lts, lt)
+			}
 		}
 		users := []string{"alice", "bob", "a.user", "x.admin", "0", "d@example.org", "true", "false", strings.Repeat("n", 200), "carol@Example.ORG", "Dave@example.org", "e@x@Y"}
 		var toks []issuedTok
